@@ -45,6 +45,7 @@ func c13steps(fam string) (ok []c13step, failing []c13step) {
 			{name: "method", src: ".inc"}, {name: "method-args", src: ".add(3)"}, {name: "method-kwargs", src: ".add(2, twice: true)"},
 			{name: "operator", src: ".+(5)"}, {name: "literal", src: `.{|x| "lit#{x.n}".p; U(x.n * 2)}`}, {name: "var", src: ".^fv"},
 			{name: "value-missing", src: ".undefinedprop(1)"}, {name: "method-trailing-literal", src: ".add(1) {|z| z}"},
+			{name: "returns-error-value", src: ".{|x| wrapped}"},
 		}
 		for _, k := range c19errKinds {
 			failing = append(failing, c13step{name: "raise-" + k, src: fmt.Sprintf(`.fail(%s, "m-%s")`, k, k), fail: &c13fail{k, "m-" + k}})
@@ -64,6 +65,7 @@ func c13steps(fam string) (ok []c13step, failing []c13step) {
 	ok = []c13step{
 		{name: "operator+", src: ".+(5)"}, {name: "operator*", src: ".*(2)"}, {name: "floordiv", src: ".//(3)"}, {name: "builtin-sqrt", src: ".sqrt"},
 		{name: "literal", src: ".{|n| n + 1}"}, {name: "builtin-even?", src: ".even?"}, {name: "literal-implicit", src: ".{\\ * 3}"},
+		{name: "returns-error-value", src: ".{|n| n.try.{100 / 0}.err}"},
 	}
 	failing = []c13step{
 		{name: "host-zero-division", src: ".//(0)", fail: &c13fail{"ZeroDivisionErr", "cannot be divided by 0"}},
